@@ -210,8 +210,26 @@ func (e *Encoder) loopHeader(fr *frame, li *loopInfo, reach *Term, stIn *State) 
 	stH := stIn.clone()
 	if mod.all {
 		stH = &State{m: map[string]*Term{}, epoch: e.nextEpoch()}
-		// everything is havocked: map every class symbol lazily (handled in stepMap via epoch)
-		e.subsetWarn("loop body havocs all memory (call to unmodelled function inside a loop)")
+		// everything is havocked: every class known so far gets a header symbol of its own, tied to
+		// its value on entry (initMap) and at the back edge (stepMap), so that invariants over the
+		// heap can be established and preserved. Classes first touched later are created lazily.
+		var known []string
+		for cl := range e.sorts {
+			known = append(known, cl)
+		}
+		sort.Strings(known)
+		for _, cl := range known {
+			old := e.get(stIn, cl, e.sorts[cl])
+			if immutableClass(cl) || strings.HasPrefix(cl, "glob:") {
+				stH.m[cl] = old
+				continue
+			}
+			f := c.Fresh(fmt.Sprintf("L%d.%s", li.idx, cl), old.S)
+			stH.m[cl] = f
+			ls.syms = append(ls.syms, f)
+			ls.initMap[f] = old
+			ls.clsFull[f] = cl
+		}
 	}
 	memo := map[*Term]bool{}
 	var classes []string
